@@ -105,17 +105,22 @@ pub fn gen_stream(rng: &mut Rng, n: usize) -> (Vec<u8>, Vec<usize>) {
     (v, dists)
 }
 
-/// the encoder's ring buffer after `written` bytes of the stream (absolute positions `base + i`)
-pub fn ring_view(stream: &[u8], written: usize, lg: u32, tail: usize) -> Vec<u8> {
+/// the encoder's ring buffer after `written` bytes of the stream (absolute positions `base + i`),
+/// as `RingBufferWrite` really leaves it (w-stream's `RingOK` / `RingViewW`): a position lives at its
+/// offset; only WRAPPED positions (absolute position >= ring size) with offset < tail are mirrored
+/// behind the ring; first-lap positions are mirrored or not depending on the allocation history
+/// (`mirror_first_lap`: not, when they arrived through the small first allocation); the 7 slack
+/// bytes behind the tail stay zero.
+pub fn ring_view(stream: &[u8], written: usize, lg: u32, tail: usize, base: usize, mirror_first_lap: bool) -> Vec<u8> {
     let size = 1usize << lg;
     let mask = size - 1;
     let mut data = vec![0u8; size + tail + 7];
     let lo = written.saturating_sub(size);
     for p in lo..written {
         data[p & mask] = stream[p];
-    }
-    for j in 0..tail {
-        data[size + j] = data[j & mask];
+        if (p & mask) < tail && (base + p >= size || mirror_first_lap) {
+            data[size + (p & mask)] = stream[p];
+        }
     }
     data
 }
@@ -315,7 +320,8 @@ fn gen_case(kind: &Kind, ctx: &Ctx, rng: &mut Rng, small_table: bool) -> (FlmCas
     let base = base & !mask;
     let written = n;
     let mut stream = stream;
-    let mut data = ring_view(&stream, written, lg, tail);
+    let mirror_first_lap = rng.chance(1, 2);
+    let mut data = ring_view(&stream, written, lg, tail, base, mirror_first_lap);
     let htl = hash_type_len(kind);
     // current position
     let natural_len = rng.chance(7, 8);
@@ -336,7 +342,7 @@ fn gen_case(kind: &Kind, ctx: &Ctx, rng: &mut Rng, small_table: bool) -> (FlmCas
             if cur_local + k < stream.len() { stream[cur_local + k] = d.data[off + k]; }
         }
         if cur_local + keep < stream.len() { stream[cur_local + keep] ^= 0x55; }
-        data = ring_view(&stream, written, lg, tail);
+        data = ring_view(&stream, written, lg, tail, base, mirror_first_lap);
     }
     let max_length = if natural_len { (written - cur_local).min(tail) } else { (1 + rng.below(8) as usize).min(written - cur_local) };
     let max_backward_limit = lgwin_window - 16;
